@@ -99,6 +99,57 @@ func litNested() (int, int) {
 	return pair(a, b)
 }
 
+type Celsius float64
+
+func blankSeven(s []int) int {
+	_ = len(s)
+	_ = append(s, 1)
+	return 7
+}
+
+func blankEarly(s []int) int {
+	for i := 0; i < 60; i++ {
+		_ = len(s)
+		_ = float64(i)
+		_ = Celsius(2.5)
+		_ = uint8(i)
+		f := 2.5
+		_ = int(f)
+		if i == 55 {
+			return 9
+		}
+	}
+	return 0
+}
+
+func blankTwo(s []int, str string, m map[string]int, t *T) (int, int) {
+	b := []byte(str)
+	_ = string(b)
+	_ = []byte(str)
+	_ = len(str)
+	_ = s[0]
+	_ = m["k"]
+	_, ok := m["k"]
+	_ = ok
+	_ = t.add(0)
+	_ = t.v
+	_ = one(1) + 2
+	_ = func(x int) int { return x }
+	_, _ = pair(1, 2)
+	_, _ = one(1), len(s)
+	a, _ := pair(1, 2)
+	_, c := pair(3, 4)
+	d := make([]int, 2)
+	_ = copy(d, s)
+	for _ = len(s); a < 0; a++ {
+		a++
+	}
+	if _ = len(s); a > 0 {
+		a++
+	}
+	return a, c
+}
+
 func vs(xs ...int) int {
 	n := 0
 	for _, x := range xs {
@@ -421,6 +472,9 @@ func testLoops() {
 func main() {
 	e0()
 	fmt.Println(e1(1))
+	bs := []int{1, 2, 3}
+	b1, b2 := blankTwo(bs, "ab", map[string]int{"k": 1}, &T{v: 2})
+	fmt.Println(blankSeven(bs), blankEarly(bs), b1, b2)
 	l1, l2 := litThenPair()
 	l3, l4 := litNested()
 	fmt.Println(l1, l2, litThenOne(), litArgOfReturn(), l3, l4)
